@@ -78,6 +78,50 @@ func c04Live(p Params) func() {
 				vsched.Failf("handler ran %d times", ran)
 			}
 			vsched.Logf("code=%d", code)
+		case "seq":
+			// sequences of calls on one session: the status of each call is its own (contexts and messages are recycled in between)
+			kinds := []string{"ok", "handler_error", "unknown_route", "bad_arg", "result_mismatch", "ok_other_session"}
+			depth := p.Int("depth", 3)
+			cs2, _, _ := world.Connect(cli, srv, world.Proto(proto))
+			hist := ""
+			for i := 0; i < depth; i++ {
+				k := kinds[vsched.Choose(len(kinds), "kind")]
+				hist += k + " "
+				var res string
+				switch k {
+				case "ok":
+					want = nil
+					if st := cs.Call(hStatus, "x", &res).Status(); !st.OK() || res != "v:x" {
+						vsched.Failf("a successful call (handler returned OK, result decoded) was reported as %s | sequence: %s", triple(st), hist)
+					}
+				case "ok_other_session":
+					want = nil
+					if st := cs2.Call(hStatus, "y", &res).Status(); !st.OK() || res != "v:y" {
+						vsched.Failf("a successful call (handler returned OK, result decoded) was reported as %s | sequence: %s", triple(st), hist)
+					}
+				case "handler_error":
+					want = erpc.NewStatus(1234, "business error", "rejected: x")
+					if st := cs.Call(hStatus, "x", &res).Status(); triple(st) != triple(want) {
+						vsched.Failf("handler returned %s but the caller observed %s | sequence: %s", triple(want), triple(st), hist)
+					}
+				case "unknown_route":
+					if st := cs.Call("/no/such", "x", &res).Status(); st.Code() != 404 {
+						vsched.Failf("unknown route reported as %s | sequence: %s", triple(st), hist)
+					}
+				case "bad_arg":
+					if st := cs.Call(hInt, "nan", &res).Status(); st.Code() != 400 {
+						vsched.Failf("undecodable argument reported as %s | sequence: %s", triple(st), hist)
+					}
+				case "result_mismatch":
+					want = nil
+					var ires int
+					if st := cs.Call(hStatus, "x", &ires).Status(); st.OK() {
+						vsched.Failf("undecodable reply body reported as OK | sequence: %s", hist)
+					}
+				}
+				vsched.Quiesce()
+			}
+			vsched.Logf("seq %s", hist)
 		case "cause":
 			causes := []string{"ok", "unknown_route", "bad_arg", "panic", "closed", "result_mismatch", "veto_postreadcallheader", "veto_prereadcallbody", "veto_postreadcallbody", "veto_prewritecall_client", "empty_result"}
 			c := causes[vsched.Choose(len(causes), "cause")]
